@@ -1,6 +1,7 @@
 package main
 
 import (
+	"sync"
 	"bytes"
 	"encoding/json"
 	"fmt"
@@ -37,19 +38,49 @@ type ReplayResult struct {
 	Output     string
 }
 
-// replayTape runs the harness natively (real build of /repo + overlay) on the
-// tape and reports whether an assertion failed or a panic escaped.
-func replayTape(l *Loaded, spec RunSpec, t *Tape) ReplayResult {
+type replayBin struct {
+	dir string
+	bin string
+	err string
+}
+
+var (
+	replayBins   = map[string]*replayBin{}
+	replayBinsMu sync.Mutex
+)
+
+// cleanupReplayBins removes the cached native test binaries.
+func cleanupReplayBins() {
+	replayBinsMu.Lock()
+	defer replayBinsMu.Unlock()
+	for k, rb := range replayBins {
+		os.RemoveAll(rb.dir)
+		delete(replayBins, k)
+	}
+}
+
+// buildReplayBin compiles the package's test binary (real code + harness
+// overlay + generated replay test) once per (pkg, tags).
+func buildReplayBin(pkg, tags string) *replayBin {
+	replayBinsMu.Lock()
+	defer replayBinsMu.Unlock()
+	key := pkg + "|" + tags
+	if rb, ok := replayBins[key]; ok {
+		return rb
+	}
+	rb := &replayBin{}
+	replayBins[key] = rb
 	tmp, err := os.MkdirTemp("/var/tmp", "gosmt-replay-")
 	if err != nil {
-		return ReplayResult{Summary: err.Error()}
+		rb.err = err.Error()
+		return rb
 	}
-	defer os.RemoveAll(tmp)
-	ov, pkgName, err := harnessOverlay(repoRoot, filepath.Join(verifRoot, "harness"), t.Pkg)
+	rb.dir = tmp
+	ov, pkgName, err := harnessOverlay(repoRoot, filepath.Join(verifRoot, "harness"), pkg)
 	if err != nil {
-		return ReplayResult{Summary: err.Error()}
+		rb.err = err.Error()
+		return rb
 	}
-	// harness names from the overlay sources
 	names := harnessNames(ov)
 	var sb strings.Builder
 	fmt.Fprintf(&sb, "package %s\n\nimport (\n\t\"fmt\"\n\t\"testing\"\n)\n\nfunc TestVerifReplay(t *testing.T) {\n\tfns := map[string]func(){\n", pkgName)
@@ -67,26 +98,44 @@ func replayTape(l *Loaded, spec RunSpec, t *Tape) ReplayResult {
 	}
 	tp := filepath.Join(tmp, "replay_test.go")
 	os.WriteFile(tp, []byte(sb.String()), 0o644)
-	repl[filepath.Join(repoRoot, t.Pkg, "zz_verif_replay_test.go")] = tp
+	repl[filepath.Join(repoRoot, pkg, "zz_verif_replay_test.go")] = tp
 	ob, _ := json.Marshal(map[string]interface{}{"Replace": repl})
 	ovp := filepath.Join(tmp, "overlay.json")
 	os.WriteFile(ovp, ob, 0o644)
-	tb, _ := json.Marshal(t)
-	tapePath := filepath.Join(tmp, "tape.json")
-	os.WriteFile(tapePath, tb, 0o644)
-
 	bin := filepath.Join(tmp, "replay.test")
-	build := exec.Command("go", "test", "-c", "-o", bin, "-tags="+t.Tags, "-vet=off", "-overlay", ovp, "./"+t.Pkg)
+	build := exec.Command("go", "test", "-c", "-o", bin, "-tags="+tags, "-vet=off", "-overlay", ovp, "./"+pkg)
 	build.Dir = repoRoot
 	build.Env = goEnv()
 	var out bytes.Buffer
 	build.Stdout = &out
 	build.Stderr = &out
 	if err := build.Run(); err != nil {
-		return ReplayResult{Summary: "native replay build failed: " + truncate(out.String(), 600), Output: out.String()}
+		rb.err = "native replay build failed: " + truncate(out.String(), 600)
+		return rb
 	}
-	cmd := exec.Command(bin, "-test.run", "^TestVerifReplay$", "-test.v", "-test.timeout", "300s")
-	cmd.Dir = tmp
+	rb.bin = bin
+	return rb
+}
+
+// replayTape runs the harness natively (real build of /repo + overlay) on the
+// tape and reports whether an assertion failed or a panic escaped.
+func replayTape(l *Loaded, spec RunSpec, t *Tape) ReplayResult {
+	rb := buildReplayBin(t.Pkg, t.Tags)
+	if rb.err != "" {
+		return ReplayResult{Summary: rb.err}
+	}
+	tb, _ := json.Marshal(t)
+	tf, err := os.CreateTemp(rb.dir, "tape-*.json")
+	if err != nil {
+		return ReplayResult{Summary: err.Error()}
+	}
+	tapePath := tf.Name()
+	tf.Write(tb)
+	tf.Close()
+	defer os.Remove(tapePath)
+	var out bytes.Buffer
+	cmd := exec.Command(rb.bin, "-test.run", "^TestVerifReplay$", "-test.v", "-test.timeout", "300s")
+	cmd.Dir = rb.dir
 	if st, err := os.Stat(filepath.Join(repoRoot, t.Pkg)); err == nil && st.IsDir() {
 		cmd.Dir = filepath.Join(repoRoot, t.Pkg)
 	}
@@ -116,7 +165,6 @@ func replayTape(l *Loaded, spec RunSpec, t *Tape) ReplayResult {
 		rr.Clean = true
 		rr.Summary = "native run clean"
 	default:
-		// build failure or crash
 		if strings.Contains(o, "panic:") || strings.Contains(o, "fatal error:") {
 			rr.Reproduced = true
 			rr.Summary = "native crash: " + firstLineWith(o, "panic:")
@@ -125,6 +173,72 @@ func replayTape(l *Loaded, spec RunSpec, t *Tape) ReplayResult {
 		}
 	}
 	return rr
+}
+
+// Witness is a completed engine path with a model, used to validate the
+// translator: the native run on the same inputs must be clean and must
+// observe the same values.
+type Witness struct {
+	Tape   *Tape
+	Expect map[string]string
+	Case   string
+}
+
+// checkWitness runs the witness natively and compares observations.
+func checkWitness(spec RunSpec, wt Witness) (ok bool, detail string) {
+	rr := replayTape(nil, spec, wt.Tape)
+	if !rr.Clean {
+		return false, "native run of an engine-verified path is not clean: " + rr.Summary
+	}
+	got := map[string]string{}
+	for _, l := range strings.Split(rr.Output, "\n") {
+		if strings.HasPrefix(l, "VERIF-OBS ") {
+			kv := strings.SplitN(strings.TrimPrefix(l, "VERIF-OBS "), "=", 2)
+			if len(kv) == 2 {
+				got[kv[0]] = strings.TrimSpace(kv[1])
+			}
+		}
+	}
+	for k, want := range wt.Expect {
+		g, present := got[k]
+		if !present {
+			return false, fmt.Sprintf("observation %s missing natively", k)
+		}
+		if !obsEqual(want, g) {
+			return false, fmt.Sprintf("observation %s: engine %s, native %s", k, want, g)
+		}
+	}
+	return true, ""
+}
+
+func obsEqual(want, got string) bool {
+	if want == got {
+		return true
+	}
+	var a, b float64
+	if _, err := fmt.Sscanf(want, "%g", &a); err != nil {
+		return false
+	}
+	if _, err := fmt.Sscanf(got, "%g", &b); err != nil {
+		return false
+	}
+	if a == b {
+		return true
+	}
+	d := a - b
+	if d < 0 {
+		d = -d
+	}
+	m := a
+	if m < 0 {
+		m = -m
+	}
+	if b > m {
+		m = b
+	} else if -b > m {
+		m = -b
+	}
+	return d <= 1e-9*m+1e-300
 }
 
 func firstLineWith(s, sub string) string {
